@@ -112,7 +112,7 @@ func (mc *muxCore[A, C, Pub]) serveLoop(ctx context.Context) error {
 			if err := func() error {
 				cid, body, err := mc.demuxFunc(req.Payload)
 				if err != nil {
-					errors.Wrapf(err, "error demultiplexing")
+					return errors.Wrapf(err, "error demultiplexing")
 				}
 				ms, err := mc.getSwarm(cid)
 				if err != nil {
